@@ -52,6 +52,10 @@ func init() {
 			maxm = 4
 		}
 		for nm := 1; nm <= maxm; nm++ {
+			opts := opts
+			if nm >= 4 {
+				opts.MaxPaths = 200000 // three participants x four messages: ~10^5 feasible logs
+			}
 			jobs = append(jobs, Job{Pkg: nodePkg, Fn: "VF_C20_Adapt", Opts: opts, Tag: fmt.Sprintf("adapt nm=%d", nm), Case: "adapt",
 				Params: map[string]string{"nm": strconv.Itoa(nm), "tag": "c20"}})
 		}
